@@ -106,12 +106,41 @@ def main(argv):
         jobs = [j for j in jobs if only in j.get('name', '')]
     nproc = int(os.environ.get('VERIF_PROCS', '0') or 0) or min(16, os.cpu_count() or 1, max(1, len(jobs)))
     results = []
+    job_timeout = float(os.environ.get('VERIF_JOB_TIMEOUT', getattr(mod, 'JOB_TIMEOUT', {}).get(tier, 1500 if tier == 'quick' else 7200)))
     if nproc == 1 or len(jobs) == 1:
         results = [_run_one((modname, j)) for j in jobs]
     else:
+        import concurrent.futures as cf
         ctx = multiprocessing.get_context('fork')
-        with ctx.Pool(nproc, maxtasksperchild=getattr(mod, 'MAX_TASKS_PER_CHILD', None)) as pool:
-            results = list(pool.imap_unordered(_run_one, [(modname, j) for j in jobs], chunksize=1))
+        pending = list(jobs)
+        while pending:
+            batch, pending = pending, []
+            ex = cf.ProcessPoolExecutor(max_workers=nproc, mp_context=ctx)
+            futs = {ex.submit(_run_one, (modname, j)): j for j in batch}
+            try:
+                for f in cf.as_completed(futs, timeout=job_timeout):
+                    try:
+                        results.append(f.result())
+                    except cf.process.BrokenProcessPool:
+                        pass
+                    except Exception as e_:
+                        r = new_result(futs[f].get('name', '?'))
+                        r['error'] = f'worker failed: {type(e_).__name__}: {e_}'
+                        results.append(r)
+            except cf.TimeoutError:
+                pass
+            done_names = {r['job'] for r in results}
+            missing = [j for j in batch if j.get('name') not in done_names]
+            for pr_ in list(getattr(ex, '_processes', {}).values()):
+                try:
+                    pr_.kill()
+                except Exception:
+                    pass
+            ex.shutdown(wait=False, cancel_futures=True)
+            for j in missing:
+                r = new_result(j.get('name', '?'))
+                r['error'] = f'job did not finish (worker died or exceeded {job_timeout:.0f}s)'
+                results.append(r)
     results.sort(key=lambda r: r['job'])
 
     agg = dict(obligations=0, discharged=0, paths=0, queries=0, solver_s=0.0, validated=0, twins=0, twins_ok=0, nontrivial=0)
